@@ -102,7 +102,7 @@ def generate(seed: int, config: str, tier: str) -> Dict[str, Any]:
         ops = [rng.choice("|&" if want_amp else "|") for _ in range(n_parts - 1)]
         queries.append({"parts": parts, "ops": ops})
     calls: List[Dict[str, Any]] = []
-    for _ in range(rng.randint(2, 12)):
+    for _ in range(rng.randint(2, 20 if tier == "thorough" else 12)):
         method = rng.choice(METHODS)
         calls.append(
             {
